@@ -94,6 +94,41 @@ SUGAR = {
         '<var> = "a" and <var> = "a"',
         'str.len(<start>) > 2 and str.len(<start>) < 30 and not(<var> = "c")',
     ],
+    "ops": [
+        'forall <digit> d in start: (= (ite (> (str.to.int d) 1) 1 0) 1)',
+        'forall <var> v in start: (= (ite (= v "a") "x" v) "x")',
+        'forall <var> v in start: (str.in_re v ((_ re.loop 1 3) (re.range "a" "c")))',
+        'forall <var> v in start: (str.in_re v ((_ re.^ 2) (str.to_re "a")))',
+        'forall <var> v in start: (str.in_re v (re.opt (str.to_re "a")))',
+        'forall <var> v in start: (str.in_re v (re.comp (str.to_re "a")))',
+        'forall <var> v in start: (str.in_re v (re.diff re.all (str.to_re "a")))',
+        'forall <var> v in start: (str.in_re v (re.inter (re.* re.allchar) (str.to_re "a")))',
+        'forall <var> v in start: (str.in_re v re.none)',
+        'forall <var> v in start: (str.<= v "b")',
+        'forall <var> v in start: (= (str.replace v "a" "b") "b")',
+        'forall <var> v in start: (= (str.replace_all v "a" "b") "b")',
+        'forall <var> v in start: (= (str.replace_re v (re.+ (str.to_re "a")) "b") "b")',
+        'forall <var> v in start: (= (str.replace_re_all v (re.+ (str.to_re "a")) "b") "b")',
+        'forall <var> v in start: (str.is_digit v)',
+        'forall <var> v in start: (= (str.to_code v) 97)',
+        'forall <var> v in start: (= (str.from_code 97) v)',
+        'forall <var> v in start: (= (str.at v 0) "a")',
+        'forall <var> v in start: (= (str.substr v 0 1) "a")',
+        'forall <var> v in start: (= (str.indexof v "a" 0) 0)',
+        'forall <var> v in start: (str.suffixof "a" v)',
+        'forall <var> v in start: (= (str.++ v "x" v) "axa")',
+        'forall <digit> d in start: (= (abs (str.to.int d)) 1)',
+        'forall <digit> d in start: (= (str.from_int (str.to.int d)) d)',
+        'forall <digit> d in start: (distinct (str.to.int d) 1)',
+        'forall <digit> d in start: (=> (> (str.to.int d) 1) (< (str.to.int d) 5))',
+        'forall <digit> d in start: (xor (> (str.to.int d) 1) (< (str.to.int d) 5))',
+        'forall <digit> d in start: (= (div (str.to.int d) 2) 1)',
+        'forall <digit> d in start: (= (mod (str.to.int d) 2) 1)',
+        'forall <digit> d in start: (= (* (str.to.int d) 2 3) 6)',
+        'forall <digit> d in start: (= (- (str.to.int d)) (- 1))',
+        'forall <digit> d in start: (= (- (str.to.int d) 1 2) 0)',
+        'forall <digit> d in start: (or (>= (str.to.int d) 1) (<= (str.to.int d) 5))',
+    ],
     "nums": [
         'str.to.int(<num>) > 10',
         'str.to.int(<num>) > -5 and str.to.int(<num>) < 100',
@@ -274,7 +309,7 @@ def run(ctx: Ctx):
         return "infra"
     logging.disable(logging.CRITICAL)
     rng = ctx.rng
-    fixed = {"assgn": ASSGN, "nums": NUMS, "text": TEXT, "crlf": CRLF}
+    fixed = {"assgn": ASSGN, "nums": NUMS, "text": TEXT, "crlf": CRLF, "ops": ASSGN}
     for gname, texts in SUGAR.items():
         trees = gen_tree_for(rng, fixed[gname])
         for text in texts:
